@@ -63,6 +63,7 @@ class Verifier:
         self.facts_used = set()
         self.at_hits = set()
         self.auto_inlined = set()
+        self.feas_cache = {}
         self.dropped = set()
         self.paths = 0
         self.entry_args = {}
